@@ -1019,6 +1019,21 @@ func MapFunction(env *Zlisp, name string, args []Sexp) (Sexp, error) {
 	return SexpNull, fmt.Errorf("second argument must be array or list; we saw %T / val = %s", args[1], args[1].SexpString(nil))
 }
 
+// MaxMakeSize is the largest number of elements a script may ask makeArray,
+// makeChan or an array type for. Go allocates what it is asked for, and a
+// request that fits its address arithmetic but not the memory of the machine
+// ends the process with a fatal error that no recover() stops. A host with
+// other needs sets it before it runs scripts.
+var MaxMakeSize int64 = 1 << 26
+
+// checkMakeSize refuses an element count outside 0..MaxMakeSize.
+func checkMakeSize(name string, size int64) error {
+	if size < 0 || size > MaxMakeSize {
+		return fmt.Errorf("%s: size %d is out of range (0 to %d)", name, size, MaxMakeSize)
+	}
+	return nil
+}
+
 func MakeArrayFunction(env *Zlisp, name string, args []Sexp) (Sexp, error) {
 	if len(args) < 1 {
 		return SexpNull, WrongNargs
@@ -1027,6 +1042,9 @@ func MakeArrayFunction(env *Zlisp, name string, args []Sexp) (Sexp, error) {
 	var size int
 	switch e := args[0].(type) {
 	case *SexpInt:
+		if err := checkMakeSize(name, e.Val); err != nil {
+			return SexpNull, err
+		}
 		size = int(e.Val)
 	default:
 		return SexpNull, fmt.Errorf("first argument must be integer")
